@@ -41,17 +41,18 @@ class Summaries:
             return []
         return self.fns.get(_key(cal, len(x.get("args", []))), [])
 
-    def dirty(self, g, pi, depth=0):
-        """True / False / None(unknown) : may g return an error with its pi-th (Out) parameter holding a stored object"""
-        k = (id(g), pi)
+    def dirty(self, g, pi, depth=0, entry="clean"):
+        """True / False / None(unknown) : may g return an error with its pi-th (Out) parameter holding a stored object
+        (entry: whether the slot already holds an object when g is entered)"""
+        k = (id(g), pi, entry)
         if k in self.memo:
             return self.memo[k]
         self.memo[k] = False            # recursion guard
-        r = self._compute(g, pi, depth)
+        r = self._compute(g, pi, depth, entry)
         self.memo[k] = r
         return r
 
-    def _compute(self, g, pi, depth):
+    def _compute(self, g, pi, depth, entry="clean"):
         if depth > 6 or g.entry is None:
             return None
         pdid = g.params[pi]["did"]
@@ -94,7 +95,7 @@ class Summaries:
                 elif x["k"] == "decl":
                     for v in x["vars"]:
                         if v.get("init") is not None and "Error" in (v.get("ty") or ""):
-                            src = self._forward_call(g, v["init"], is_out_ref, depth)
+                            src = self._forward_call(g, v["init"], is_out_ref, depth, status)
                             known_ok.discard(v["did"])
                             if src is not None:
                                 var_src[v["did"]] = src
@@ -104,7 +105,7 @@ class Summaries:
                 elif x["k"] == "binop" and x["op"] == "=":
                     l = g.e(g.strip(x["lhs"]))
                     if l is not None and l["k"] == "ref" and "Error" in (l.get("ty") or ""):
-                        src = self._forward_call(g, x["rhs"], is_out_ref, depth)
+                        src = self._forward_call(g, x["rhs"], is_out_ref, depth, status)
                         known_ok.discard(l["did"])
                         if src is not None:
                             var_src[l["did"]] = src
@@ -121,12 +122,12 @@ class Summaries:
                         may_fail = False
                     elif v["k"] == "ref" and v.get("did") in var_src:
                         # untested result of a forwarding call
-                        d = var_src[v["did"]]
-                        st = "set" if (d or status == "set") else status
+                        d = var_src[v["did"]][0]
+                        st = "set" if d else "clean"
                     elif v["k"] in ("call", "mcall"):
-                        src = self._forward_call(g, val, is_out_ref, depth)
+                        src = self._forward_call(g, val, is_out_ref, depth, status)
                         if src is not None:
-                            st = "set" if (src or status == "set") else status
+                            st = "set" if src[0] else "clean"       # the callee's summary already accounts for the entry status
                     if may_fail and st == "set":
                         found[0] = el
                         return
@@ -150,12 +151,17 @@ class Summaries:
                                 did = pv.get("did")
                                 if is_ok:
                                     ko2.add(did)
-                                    if did in var_src:
-                                        st2 = "set"             # the forwarded creator succeeded: it stored its object
+                                    if did in var_src and var_src[did][1]:
+                                        st2 = "set"             # the creator the slot was forwarded to succeeded: it stored its object
                                 else:
-                                    if did in var_src and var_src[did]:
-                                        st2 = "set"             # the forwarded creator failed dirty
+                                    if did in var_src:
+                                        st2 = "set" if var_src[did][0] else "clean"      # the callee's summary for the status it was entered with
                     vs2 = var_src
+                    if a is not None and a["k"] == "binop" and a["op"] in ("!=", "=="):
+                        # the outcome of the tested call is now part of the status: forget the pending result
+                        tested = {(g.e(g.strip(z)) or {}).get("did") for z in (a["lhs"], a["rhs"])}
+                        if tested & set(var_src):
+                            vs2 = {k_: v_ for k_, v_ in var_src.items() if k_ not in tested}
                     walk(s, seen | {s}, st2, vs2, ko2)
             else:
                 for s in succs:
@@ -166,7 +172,7 @@ class Summaries:
         old = sys.getrecursionlimit()
         sys.setrecursionlimit(max(old, 20000))
         try:
-            walk(g.entry, {g.entry}, "clean", {}, set())
+            walk(g.entry, {g.entry}, entry, {}, set())
         finally:
             sys.setrecursionlimit(old)
         if found[0] is not None:
@@ -175,18 +181,20 @@ class Summaries:
             return None
         return False
 
-    def _forward_call(self, g, e, is_out_ref, depth):
+    def _forward_call(self, g, e, is_out_ref, depth, status="clean"):
         """e is a call that forwards the out-parameter -> dirty flag of the callee (True/False), else None"""
         y = g.e(g.strip(e))
         if y is None or y["k"] not in ("call", "mcall"):
             return None
         for ai, a in enumerate(y.get("args", [])):
             if is_out_ref(a):
+                ax = g.e(g.strip(a))
+                slot = not (ax is not None and ax["k"] in ("unop", "opcall") and ax.get("op") == "*")      # `*out` passes the object, not the slot
                 cands = self.lookup(g, y)
                 if not cands:
-                    return True             # unknown creator: assume the worst
-                res = [self.dirty(h, ai, depth + 1) if ai < len(h.params) else None for h in cands]
-                return any(r is None or r for r in res)
+                    return (True, slot)     # unknown creator: assume the worst
+                res = [self.dirty(h, ai, depth + 1, status) if ai < len(h.params) else None for h in cands]
+                return (any(r is None or r for r in res), slot)
         return None
 
 
